@@ -47,6 +47,28 @@ let str_err = function
 let flags d = String.concat "" (List.map (fun p -> if detect_page p.pg_ct then "1" else "0") d.d_pages)
 let resflags d = String.concat "" (List.map (fun p -> if p.pg_res then "1" else "0") d.d_pages)
 
+(* page tree shape: "(" kid kid ... ")" where a kid is a page index or a nested "(...)"; the string is the
+   kid list of the root, e.g. "((0 1) 2)" *)
+let parse_tree (s : string) (pages : page array) : ptree list =
+  let n = String.length s in
+  let pos = ref 0 in
+  let rec skip () = if !pos < n && s.[!pos] = ' ' then (incr pos; skip ()) in
+  let rec kids () =
+    (* after '(' *)
+    skip ();
+    if !pos >= n then failwith "bad tree"
+    else if s.[!pos] = ')' then (incr pos; [])
+    else if s.[!pos] = '(' then (incr pos; let k = kids () in let r = kids () in PNode k :: r)
+    else begin
+      let st = !pos in
+      while !pos < n && s.[!pos] >= '0' && s.[!pos] <= '9' do incr pos done;
+      if !pos = st then failwith "bad tree";
+      let i = int_of_string (String.sub s st (!pos - st)) in
+      let r = kids () in PLeaf pages.(i) :: r
+    end in
+  skip ();
+  if !pos < n && s.[!pos] = '(' then (incr pos; kids ()) else failwith "bad tree"
+
 let dispatch fn args = match fn, args with
   | "remove", [c] -> str_rm (remove_artifacts (by c))
   | "detect", [c] -> str_of_bool (detect_artifacts (by c))
@@ -76,6 +98,11 @@ let dispatch fn args = match fn, args with
         | POk (_, ct', _, _) -> str_contents ct', str_of_bool (detect_page ct')
         | PFuel -> "fuel", "-" | PNoContents -> "err:nocontents", "-") in
       Printf.sprintf "add=%s|det=%s|rm=%s|det2=%s" (str_contents added) (str_of_bool det) rms det2
+  | "treedetect", [ocg; shape; pages] ->
+      let ps = Array.of_list (pages_of pages) in
+      let d = { t_ocg = bool_of_str ocg; t_root = parse_tree shape ps } in
+      Printf.sprintf "walk=%s|flat=%s|order=%s" (str_of_bool (detect_tdoc d)) (str_of_bool (detect_doc (flat_doc d)))
+        (flags (flat_doc d))
   | "doc", [onTop; ocg; seladd; selrm; pages] ->
       let wm = wm_content (by "31203020302031203020") (by "475330") (by "466d30") in
       let d = { d_ocg = bool_of_str ocg; d_pages = pages_of pages } in
